@@ -733,7 +733,7 @@ MANIFEST = {
 
 
 def run(ctx):
-    ctx.search("session", cases(), quick=2000, thorough=8000)
+    ctx.search("session", cases(), quick=2000, thorough=20000)
     if ctx.quick():
         ctx.enumerate("session", method_reply_cases(full=False), name="method-replies-x-hangups(sample)",
                       exhaustive=False)
